@@ -216,3 +216,6 @@ SPECS["C05"] = dict(
              bounds="arenas at checkpoint = mask %d, arenas at rollback = mask %d (of 3, ascending addresses), up to 2 newer checkpoints, arbitrary target" % (at, now))
          for (at, now) in MASKS],
 )
+
+# properties whose check is not built yet (kept current; moved to SPECS as they are built)
+NOT_YET = {}
